@@ -341,9 +341,11 @@ def write_replay(spec, tier, seed, streams, target):
     rdir = os.environ.get("VERIF_REPLAY_DIR") or os.path.join(VERIF_DIR, "replays")
     os.makedirs(rdir, exist_ok=True)
     path = os.path.join(rdir, f"{spec.PROPERTY}-{seed}.json")
+    # describe the violation as the minimised run shows it (same class and site key as the original report)
+    shown = next((v for v in res["violations"] if v["class"] == target["class"] and v["site"] == target["site"]), target)
     doc = {"property": spec.PROPERTY, "tier": tier, "run_seed": seed,
            "code_digest": code_digest(getattr(spec, "FILES", [])),
-           "violation": target, "all_violations": res["violations"], "plan": res.get("plan"),
+           "violation": shown, "first_seen_as": target.get("message"), "all_violations": res["violations"], "plan": res.get("plan"),
            "streams": res.get("streams"), "digest": res.get("digest"),
            "trace": res.get("trace")}
     with open(path, "w") as f:
